@@ -118,9 +118,16 @@ def run(tier):
     bad += sx.validate(chk, "Trace_Sbx", dtpath, devents, nlines, "dylib")
     n_ev += len(devents)
     n_exec += sum(1 for e in devents if e["e"] == "reset")
+    for g in sx.BOGUS:
+        chk.violation("[%s] registration number %d on a fresh sandbox was accepted although no entry point was left: the owner "
+                      "claims to be registered but has no entry point of its own" % (g["backend"], g["accepted_without_entry_point"]), g)
+    del sx.BOGUS[:]
     for b in bad:
         chk.violation("[%s backend] event %d outside the C13 Contract: %s" % (b["backend"], b["index"], b["event"]),
                       {"backend": b["backend"], "walk": b["walk"], "event": b["event"]})
+    # the same refusals in the library's DEFAULT failure configuration (no exceptions, no custom handler): the process ends
+    import abortcommon
+    abortcommon.judge(chk, wd, "C13")
     chk.count(evaluations=n_ev, distinct=n_edges, traces=n_exec)
     for ev in events[5:8] + nevents[-3:-1]:
         chk.sample(ev)
